@@ -45,7 +45,7 @@ Holds(c, e) ==
     [] c = "C16_Disconnect" ->
          e.k = "disc_ret" => (~e.alive /\ st.ntx = Len(st.calls) /\ Len(st.acks) = Len(st.calls))
     \* connection loss: the write() in flight when the link drops does not return normally (it raises), and it does return
-    [] c = "C16_Loss" -> (e.k = "ret" /\ st.lost) => e.res # "ok"
+    [] c = "C16_Loss" -> (e.k = "ret" /\ (st.lost \/ st.wfail)) => e.res # "ok"
     [] c = "H_Device" -> (e.k = "rel" /\ IsAck(e.text) /\ ~(IsError(e.text) /\ st.q = <<>>)) => st.owed > 0
 Ante(c, e) ==
   CASE c = "C16_Order" -> e.k = "tx" /\ ~IsStartup(e.text)
@@ -53,7 +53,7 @@ Ante(c, e) ==
     [] c = "C16_Error" -> e.k = "ret" /\ Len(st.acks) >= e.s /\ IsError(st.acks[e.s])
     [] c = "C16_Disconnect" -> e.k = "disc_ret"
     [] c = "H_Device" -> e.k = "rel"
-    [] c = "C16_Loss" -> e.k = "ret" /\ st.lost
+    [] c = "C16_Loss" -> e.k = "ret" /\ (st.lost \/ st.wfail)
     [] c = "C16_Alarm" -> e.k = "ret" /\ st.alarm /\ ~st.lost
     [] OTHER -> TRUE
 
@@ -63,6 +63,7 @@ SigOf(c, e) ==
 NextSt(e) ==
   CASE e.k = "call" -> [st EXCEPT !.calls = Append(st.calls, e.text)]
     [] e.k = "lost" -> [st EXCEPT !.lost = TRUE]
+    [] e.k = "wfail" -> [st EXCEPT !.wfail = TRUE]         \* the port refused a write: the write() in progress must raise
     [] e.k = "tx" -> IF IsStartup(e.text) THEN [st EXCEPT !.owed = st.owed + 1, !.q = Append(st.q, "hs")]
                      ELSE [st EXCEPT !.ntx = st.ntx + 1, !.owed = st.owed + 1, !.q = Append(st.q, "stmt")]
     [] e.k = "rel" ->
@@ -77,7 +78,7 @@ NextSt(e) ==
 
 Init ==
   /\ tid \in 1..Len(Traces) /\ l = 1
-  /\ st = [calls |-> <<>>, ntx |-> 0, acks |-> <<>>, owed |-> 0, q |-> <<>>, lateHs |-> FALSE, lost |-> FALSE, alarm |-> FALSE]
+  /\ st = [calls |-> <<>>, ntx |-> 0, acks |-> <<>>, owed |-> 0, q |-> <<>>, lateHs |-> FALSE, lost |-> FALSE, alarm |-> FALSE, wfail |-> FALSE]
   /\ cnt = [c \in Clauses |-> 0]
 Step ==
   /\ l <= Len(Traces[tid].ev)
